@@ -468,8 +468,26 @@ func (w *twkbWriter) writeGeometryCollection(gc GeometryCollection) error {
 		}
 		subTWKB := subWriter.formTWKB()
 		w.twkbContents = append(w.twkbContents, subTWKB...)
+		w.mergeBBox(subWriter)
 	}
 	return nil
+}
+
+// mergeBBox expands the bounding box to include that of a sub-geometry's
+// writer (which uses the same dimensions and precisions).
+func (w *twkbWriter) mergeBBox(sub *twkbWriter) {
+	if !sub.bboxValid {
+		return
+	}
+	for d := 0; d < w.dimensions; d++ {
+		if !w.bboxValid || sub.bboxMin[d] < w.bboxMin[d] {
+			w.bboxMin[d] = sub.bboxMin[d]
+		}
+		if !w.bboxValid || sub.bboxMax[d] > w.bboxMax[d] {
+			w.bboxMax[d] = sub.bboxMax[d]
+		}
+	}
+	w.bboxValid = true
 }
 
 func (w *twkbWriter) writeTypeAndPrecision(kind twkbGeometryType) {
